@@ -645,6 +645,15 @@ func registerIntrinsics(e *Engine) {
 		I["("+RepoMod+"/common."+t+").Hex"] = txt
 		I["("+RepoMod+"/common."+t+").String"] = txt
 	}
+	// cid.Cid is struct{ str string }; Bytes() returns []byte(str)
+	I["(github.com/ipfs/go-cid.Cid).Bytes"] = func(p *Path, fr *frame, fn *ssa.Function, args []Value, pos token.Pos) Value {
+		s := args[0].(*StructV).F[0].(StrV)
+		arr := make([]Value, len(s.B))
+		for k, b := range s.B {
+			arr[k] = b
+		}
+		return SliceV{O: p.newObj(&ArrayV{E: arr, Mut: true}, nil, "cid.Bytes"), Len: len(arr), Cap: len(arr)}
+	}
 	I["reflect.TypeOf"] = func(p *Path, fr *frame, fn *ssa.Function, args []Value, pos token.Pos) Value {
 		p.stub("reflect.TypeOf => opaque type token")
 		return p.opaqueIface("reflect.Type", "type")
@@ -965,7 +974,7 @@ func (p *Path) bigBytes(fr *frame, x *Term, pos token.Pos) Value {
 			return SliceV{O: p.newObj(&ArrayV{E: arr, Mut: true}, nil, "big.Bytes"), Len: n, Cap: n}
 		}
 	}
-	p.abort("inconclusive", fmt.Sprintf("big.Int.Bytes of a value wider than %d bytes (bound) at %s", maxB, p.where(fr, pos)))
+	p.abort("inconclusive", fmt.Sprintf("big.Int.Bytes of a value wider than %d bytes (bound) at %s [%s]", maxB, p.where(fr, pos), callChain(fr, 6)))
 	return nil
 }
 
